@@ -630,7 +630,7 @@ def h_work(prop, case, facts, kind="dfa", n=6, an=EITHER, timeout=1200, stubs=()
     body = _body(case, kind, "t::work::<%s, _, %d, %d, %s>(&a)" % (case.mod, n, an, "true" if kind == "dfa" else "false"))
     schema = [("hay", ("bytes", n)), ("s", "usize"), ("e", "usize")] + ([("anchored", "bool")] if an == EITHER else [])
     meta = dict(template="work", kind=kind, N=n, anchored_mode=AMODE[an], symbolic=["haystack bytes", "span", "anchored flag"],
-                fixed_inputs={} if an == EITHER else {"anchored": int(an == AN)},
+                fixed_inputs=dict({} if an == EITHER else {"anchored": int(an == AN)}, pfcode=facts[case.name]["pf_code"]),
                 hook="counters in the search loops' next_state call sites and the NFAs' failure loops")
     f = facts[case.name]
     unwind = base_unwind(case, facts, n)
@@ -648,6 +648,18 @@ def h_work(prop, case, facts, kind="dfa", n=6, an=EITHER, timeout=1200, stubs=()
     if kind == "dfa":
         pass
     return h
+
+
+def h_work_ov(prop, case, facts, kind="dfa", n=6, timeout=1200, stubs=()):
+    name = "h_workov_%s_%s_n%d" % (case.name, kind, n)
+    body = _body(case, kind, "t::work_ov::<%s, _, %d, %s>(&a)" % (case.mod, n, "true" if kind == "dfa" else "false"))
+    schema = [("hay", ("bytes", n)), ("s", "usize"), ("e", "usize")]
+    meta = dict(template="work_ov", replay_template="work", kind=kind, N=n, anchored_mode="unanchored",
+                symbolic=["haystack bytes", "span"], fixed_inputs={"anchored": 0, "ov": 1, "pfcode": facts[case.name]["pf_code"]},
+                hook="counters in the overlapping search loop; memchr contract model: scan order, scan range, bytes examined")
+    unsat = set() if case.pf else {"the prefilter scanned and nothing matched"}
+    return Harness(name, case, body, base_unwind(case, facts, n), schema, meta, timeout=timeout,
+                   functions=F_OV + F_KIND[kind] + ["verif::count hooks", "Prefilter::find_in"], unsat_ok=unsat, stubs=stubs)
 
 
 def h_fail_depth(prop, case, facts, timeout=600):
@@ -1377,9 +1389,11 @@ def _schedule(prop, tier, seed):
                     h = h_stream_run(prop, c, facts, "dfa", t=2, timeout=3000)
                     h.mem_gb = 28
                     hs.append(h)
-                if prop == "C08" and (c is one or not quick):
-                    # complete driver runs: T=2 on 2-byte patterns exhausts 24 GB (measured); quick binds the
-                    # driver to the chunk iterator on the single-byte-pattern case only
+                if prop == "C08" and not quick:
+                    # complete driver runs: T=2 exhausts 24-28 GB (measured), T=1 on single-byte patterns takes
+                    # 12-15 min - over the 900 s budget of a quick check, so the driver runs are thorough-only;
+                    # quick decides the chunk sequence (positions and bytes) by the inductive step above, and the
+                    # driver's error handling through C18's writer-fault harnesses
                     h = h_stream_replace(prop, c, facts, "dfa", t=1 if quick else 2, timeout=2400 if quick else 5400)
                     h.mem_gb = 28
                     hs.append(h)
@@ -1449,15 +1463,18 @@ def _schedule(prop, tier, seed):
             for c in cases:
                 h = h_purity(prop, c, facts, "dfa", n=(2 if c.sk == "both" else 3) if quick else 4)
                 h.mem_gb = 24
+                if quick and "pfr" in c.name:
+                    h = None  # 12 min on the four-pattern rare-byte case (measured); purity_same covers it in quick
                 if not c.pf:
                     hc = Harness("h_pureclone_%s_dfa_n2" % c.name, c, _body(c, "dfa", "t::purity_clone::<%s, _, 2>(&a)" % c.mod),
                                  max(base_unwind(c, facts, 2), facts[c.name]["dfa_match_rows"] + 2), [("h", ("bytes", 2)), ("a", "bool")],
                                  dict(template="purity_clone", kind="dfa", N=2, symbolic=["haystack bytes", "anchoring"]),
                                  timeout=1200, mem_gb=24, functions=F_SEARCH + F_KIND["dfa"] + ["Clone for DFA"], covers_required=False)
                     hs.append(hc)
-                if c.pf:
-                    h.stubs = list(STUB_PF)
-                hs.append(h)
+                if h is not None:
+                    if c.pf:
+                        h.stubs = list(STUB_PF)
+                    hs.append(h)
                 if not quick and not c.pf:
                     hs.append(h_purity(prop, c, facts, "cnfa", n=3))
                 if c.pf or "basic" in c.name:
@@ -1492,6 +1509,9 @@ def _schedule(prop, tier, seed):
                 if c.pf:
                     h.stubs = list(STUB_PF)
                 hs.append(h)
+                if c.mk == "std" and (c.pf or "akb" in c.name):
+                    # one overlapping step (its own start-state prefilter branch: seeded C19d)
+                    hs.append(h_work_ov(prop, c, facts, "dfa", n=6 if quick else 8, stubs=list(STUB_PF) if c.pf else ()))
                 hs.append(h_fail_depth(prop, c, facts))
                 if not c.pf and not quick:
                     # contiguous NFA over 2 symbolic bytes: 13 min / 16 GB (measured); thorough only
